@@ -278,23 +278,27 @@ Definition guard_table : guard_tbl := [
   (("Buffer", "cancel"),    GExempt "Buffer.ensure" R ExLazyInitProviso (GMutex "mutex"));
   (("Buffer", "consumers"), GExempt "Buffer.ensure" R ExLazyInitProviso (GMutex "mutex"));
   (("Buffer", "done"),      GExempt "Buffer.ensure" R ExLazyInitProviso (GMutex "mutex"));
-  (* FINDING F5 (genuine data race, reported by the race detector on the unchanged tree): b.cleaner is ALSO written
-     by SetCleanerConfig (under b.mutex) at any time, so ensure's unlocked `b.cleaner == nil` at the start of every
-     other public call races with it; the proviso (first call completes before sharing) does not cover that.
-     [lazyinit_confined] below is what separates this entry from the five above. *)
-  (("Buffer", "cleaner"),   GExempt "Buffer.ensure" R ExKnownFinding (GMutex "mutex"));
-  (* b.cond is written exactly once, by ensure, in the critical section that then executes `go b.cleanup()`; the
-     cleaner's timer goroutine (spawned from Buffer.cleanup) re-broadcasts holding only the cleaner's private mutex:
-     its read of b.cond is ordered after that single write by the chain of go statements. (That it does NOT hold
-     b.mutex is finding F3 — a lost wake-up, not a data race.) *)
-  (("Buffer", "cond"),      GExempt "Buffer.ensure" R ExLazyInitProviso
-                              (GExempt "Buffer.cleanup" R ExGoOrdered (GMutex "mutex")));
+  (* FINDING F5 (genuine data race, reported by the race detector on the tree before commit "fix: SetCleanerConfig…"):
+     SetCleanerConfig used to REPLACE the pointer b.cleaner (under b.mutex) at any time, so ensure's unlocked
+     `b.cleaner == nil` at the start of every other public call raced with it; the proviso (first call completes before
+     sharing) does not cover that. Since the repair SetCleanerConfig overwrites the pointee (`*b.cleaner = config`)
+     and the pointer is written only by ensure, like the five fields above; [lazyinit_confined] checks exactly that,
+     so re-introducing the pointer write breaks C11_impl_lazyinit_confined. *)
+  (("Buffer", "cleaner"),   GExempt "Buffer.ensure" R ExLazyInitProviso (GMutex "mutex"));
+  (* b.cond is written exactly once, by ensure, in the critical section that then executes `go b.cleanup()`. Since the
+     repair of finding F3 (989b0cf) the cleaner's timer goroutine re-broadcasts holding b.mutex, so every read outside
+     ensure is under the mutex. (Before that repair the timer goroutine read b.cond holding only the cleaner's private
+     mutex: ordered after the single write by the chain of go statements — a lost wake-up, not a data race; this
+     table would then need `GExempt "Buffer.cleanup" R ExGoOrdered` here.) *)
+  (("Buffer", "cond"),      GExempt "Buffer.ensure" R ExLazyInitProviso (GMutex "mutex"));
   (* the message buffer and its base offset: Put/cleanupLogic write under Lock, get/Slice/Size/Diff read under RLock *)
   (("Buffer", "buffer"),    GMutex "mutex");
   (("Buffer", "offset"),    GMutex "mutex");
 
-  (* CleanerConfig: a value copied in (SetCleanerConfig stores the address of its by-value parameter) and out
-     (CleanerConfig returns a copy); never written through the pointer *)
+  (* CleanerConfig: a value copied in and out under b.mutex: SetCleanerConfig overwrites the whole pointee under Lock
+     (`*b.cleaner = config`), CleanerConfig() returns a copy under RLock, the cleaner reads the fields under Lock.
+     The translator records field selections only, so the two whole-struct accesses are not facts (trusted: they are
+     under b.mutex by inspection); every field-wise access is a read. *)
   (("CleanerConfig", "Cleaner"),  GImmutable);
   (("CleanerConfig", "Cooldown"), GImmutable);
   (* FixedBufferCleanerNotification: built as a literal, passed by value to the callback *)
